@@ -89,7 +89,7 @@ def call_spec_fn(self, name, e, st):
         return v
     if name == "result":
         return self.spec_result
-    if name in ("forall", "exists"):
+    if name in ("forall", "exists", "forall_t"):
         lam = e.args[0]
         if not isinstance(lam, ast.Lambda):
             raise ContractError("forall/exists need a lambda")
@@ -127,7 +127,32 @@ def call_spec_fn(self, name, e, st):
             (inside if _mentions(x, bset) else keep).append(x)
         for x in keep:
             st.assume(x)
-        if name == "forall":
+        # typing facts about list lengths (len >= 0) met at a quantified position: as an antecedent they would make an ASSUMED
+        # formula useless exactly where it is needed (nothing else says that the length of the j-th row is non-negative), so they
+        # are stated on their own, for every value of the bound variables (every entry of a length array is non-negative)
+        lens = set()
+        for hp in [s2.heap] + [getattr(l, "heap", {}) for l in (st.labels or {}).values()]:
+            for k_, a_ in hp.items():
+                if k_[0] == "len":
+                    lens.add(a_.get_id())
+        typing = [x for x in inside if _is_len_nonneg(x, lens)] if name == "forall_t" else []      # (opt-in: forall_t only)
+        if typing:
+            inside = [x for x in inside if not any(x is t_ for t_ in typing)]
+            for x in typing:
+                st.assume(z3.ForAll(bound, x))
+        if name == "forall_t":
+            # "triggered" universal: the body is guarded by an uninterpreted marker tr(j) per integer bound variable, which is also
+            # the only pattern.  As a goal it is at least as strong as the plain forall (tr is arbitrary); as a hypothesis it is
+            # instantiated exactly at the skolem constants of forall_t goals.  For bodies whose only terms over the bound variable
+            # are interpreted (sequence indexing, arithmetic), for which z3 infers no usable pattern.
+            tr = z3.Function("tr!", z3.IntSort(), z3.BoolSort())
+            ints = [b for b in bound if b.sort() == z3.IntSort()]
+            if not ints:
+                raise ContractError("forall_t needs an integer bound variable")
+            guard = z3.And(*[tr(b) for b in ints])
+            pat = z3.MultiPattern(*[tr(b) for b in ints]) if len(ints) > 1 else tr(ints[0])
+            z = z3.ForAll(bound, z3.Implies(z3.And(guard, *inside), bz), patterns=[pat])
+        elif name == "forall":
             z = z3.ForAll(bound, z3.Implies(z3.And(*inside), bz) if inside else bz)
         else:
             z = z3.Exists(bound, z3.And(*inside, bz) if inside else bz)
@@ -195,6 +220,11 @@ def call_spec_fn(self, name, e, st):
         m, k = (self.ev1(x, st)[0] for x in e.args)
         k = self.coerce(self.guess_tuple(k, st), m.t.k, st)
         return Val(m.t, z3.Store(m.z, k.z, z3.BoolVal(True)))
+    if name == "mset":      # mset(m, k, v): the ghost map m with key k set to v
+        m, k, v = (self.ev1(x, st)[0] for x in e.args)
+        k = self.coerce(self.guess_tuple(k, st), m.t.k, st)
+        v = self.coerce(self.guess_tuple(v, st), m.t.v, st)
+        return Val(m.t, z3.Store(m.z, k.z, v.z))
     if name == "keys_are":     # keys_are(d, "a", "b", ...): the key set of d is exactly the listed strings
         d = self.ev1(e.args[0], st)[0]
         ks = [z3.StringVal(x.value) for x in e.args[1:]]
@@ -210,6 +240,25 @@ def call_spec_fn(self, name, e, st):
         args = [self.ev1(a, st)[0] for a in e.args]
         return fn(self, st, *args)
     return None
+
+
+def _is_len_nonneg(x, lens):
+    """x is `Select(A, r) >= 0` (or `0 <= Select(A, r)`) for a list-length heap array A."""
+    if not (z3.is_app(x) and x.num_args() == 2):
+        return False
+    k = x.decl().kind()
+    if k == z3.Z3_OP_GE:
+        a, b = x.arg(0), x.arg(1)
+    elif k == z3.Z3_OP_LE:
+        b, a = x.arg(0), x.arg(1)
+    else:
+        return False
+    if not (z3.is_int_value(b) and b.as_long() == 0 and z3.is_select(a)):
+        return False
+    arr = a.arg(0)
+    while z3.is_store(arr):
+        arr = arr.arg(0)
+    return arr.get_id() in lens or (z3.is_const(arr) and arr.decl().name().startswith("H0_len_"))
 
 
 def _mentions(z, idset):
@@ -229,7 +278,7 @@ def _mentions(z, idset):
     return False
 
 
-SPEC_NAMES = {"madd", "remap", "keys_are", "wf", "last_result", "last_arg", "called_after", "old", "at", "result", "forall", "exists", "implies", "iff", "ite", "is_none", "val", "fresh", "same",
+SPEC_NAMES = {"madd", "mset", "remap", "keys_are", "wf", "last_result", "last_arg", "called_after", "old", "at", "result", "forall", "forall_t", "exists", "implies", "iff", "ite", "is_none", "val", "fresh", "same",
               "ssum"}
 
 
@@ -382,6 +431,16 @@ def apply(self, callee, args, kwargs, st, node):
         if callee.qual in self.reg.classes or callee.qual + ".__init__" in self.reg.contracts:
             yield from self.construct(callee.qual, args, kwargs, st, node)
             return
+        # an instance of a generic class modelled per instantiation (DefaultList -> DefaultListInt): the expected type names
+        # the model class, whose constructor contract is read from the generic class's real __init__ (contract `source`)
+        want = getattr(self, "expect_type", None)
+        if isinstance(want, Opt):
+            want = want.elt
+        if isinstance(want, Obj):
+            ci = self.reg.contracts.get(want.cls + ".__init__")
+            if ci is not None and getattr(ci, "source", None) == callee.qual + ".__init__":
+                yield from self.construct(want.cls, args, kwargs, st, node)
+                return
         if self.lenient:
             yield self.unknown_call(args, kwargs, st, f"uncontracted function {callee.qual}"), st
             return
@@ -1075,13 +1134,13 @@ def chain_views(self, vs):
     return View(a.length + rest.length, at, a.elt_t)
 
 
-def filtered_seq(self, f, st):
+def filtered_seq(self, f, st, want_elt=None):
     """tuple(x for x in src if cond): a fresh sequence that is a subsequence of src with exactly the kept items."""
     _, view, bind, ifs, elt = f
     i = fresh("i", z3.IntSort())
     s_i = bind(i, st)
     ev, s2 = self.ev1(elt, s_i)
-    ev = self.guess_tuple(ev, s2)
+    ev = self.coerce(ev, want_elt, s2) if want_elt is not None else self.guess_tuple(ev, s2)
     et = ev.t
     conds = []
     for c in ifs:
@@ -1552,6 +1611,11 @@ def iter_to_val(self, v, t, st):
     v = self.iter_value(v, st)
     if isinstance(v, tuple) and v and v[0] == "filtered" and isinstance(t, Seq):
         return self.filtered_seq(v, st)
+    if isinstance(v, tuple) and v and v[0] == "filtered" and isinstance(t, List):
+        # [e for x in src if cond] handed to a list parameter: a new list holding the kept items, in order
+        lst = self.alloc(st, t)
+        self.list_extend(st, lst, self.view_of(self.filtered_seq(v, st, t.elt), st))
+        return lst
     if isinstance(v, View) and isinstance(t, Seq):
         return self.materialise(v, st, t.elt)
     if isinstance(v, MemView) and isinstance(t, Seq):
